@@ -1,6 +1,15 @@
 import Req.Driver.Proto
 import Req.Pool.AltSvcParse
 import Req.Pool.MetaCharset
+import Req.H1.Response
+import Req.H2.Meta
+import Req.H3.Fields
+import Req.C07.ProtoOpts
+import Req.C07.Interim
+import Req.C07.Token
+import Req.C07.H1Budget
+import Req.C07.H3Budget
+import Req.Client.DigestAuth
 /-! Driver lanes of C07. -/
 namespace Req.Driver.L.C07
 open Req.Proto
@@ -31,9 +40,233 @@ def laneMeta : List String → String
     | none => "bad-op"
   | _ => "bad-op"
 
+/-! ### round 4: byte-position matrix, option life cycle, interim loops, budgets -/
+
+def parseOps (ops : String) : Option (List Req.C07.ProtoOpts.Op) :=
+  let cs := if ops == "-" then [] else ops.toList.map (fun c => String.singleton c)
+  cs.mapM Req.C07.ProtoOpts.opOfString
+
+/-- `c07opts <supported 0|1> <ops E D 1 2 3 U C | ->` → nil-ness of the HTTP/3 fields and the forced
+version after the setter sequence -/
+def laneOpts : List String → String
+  | [sup, ops] =>
+    match parseOps ops with
+    | none => "bad-op"
+    | some l => Req.C07.ProtoOpts.render (Req.C07.ProtoOpts.run (sup == "1") {} l)
+  | _ => "bad-op"
+
+/-- `c07optuse <supported> <ops> <https 0|1> <respH3 0|1>` → what an Alt-Svc response with a usable
+h3 entry and what the forced-version dispatch do in the state the sequence leaves -/
+def laneOptUse : List String → String
+  | [sup, ops, https, r3] =>
+    match parseOps ops with
+    | none => "bad-op"
+    | some l =>
+      let s := Req.C07.ProtoOpts.run (sup == "1") {} l
+      "altsvc=" ++ Req.C07.ProtoOpts.useString (Req.C07.ProtoOpts.onAltSvc s (https == "1") (r3 == "1")) ++
+      " forced=" ++ Req.C07.ProtoOpts.useString (Req.C07.ProtoOpts.onForced s)
+  | _ => "bad-op"
+
+def parseHeadTok (t : String) : Option Req.C07.Interim.Head :=
+  if t.endsWith "e" then (t.dropEnd 1).toString.toNat?.map fun c => { code := c, endStream := true }
+  else t.toNat?.map fun c => { code := c }
+
+/-- `c07interim <1|2|3> <code[e],code[e],… | ->` → `final <code> <#interim>` / `error` (too many, 1xx with END_STREAM, or no final head) -/
+def laneInterim : List String → String
+  | [p, hs] =>
+    let proto : Option Req.C07.Interim.Proto :=
+      if p == "1" then some .h1 else if p == "2" then some .h2 else if p == "3" then some .h3 else none
+    let heads := if hs == "-" then some [] else (hs.splitOn ",").mapM parseHeadTok
+    match proto, heads with
+    | some pr, some l =>
+      match Req.C07.Interim.run pr l with
+      | .final c k => "final " ++ toString c ++ " " ++ toString k
+      | _ => "error"
+    | _, _ => "bad-op"
+  | _ => "bad-op"
+
+/-- `c07token <0..255>` → `field=<0|1|panic> value=<0|1>` -/
+def laneToken : List String → String
+  | [n] =>
+    match n.toNat? with
+    | some k =>
+      if k < 256 then
+        let b := UInt8.ofNat k
+        "field=" ++ (match Req.C07.Token.validHeaderFieldByte b with
+                     | none => "panic" | some true => "1" | some false => "0") ++
+        " value=" ++ (if Req.C07.Token.validHeaderValueByte b then "1" else "0")
+      else "bad-op"
+    | none => "bad-op"
+  | _ => "bad-op"
+
+def renderFraming : Req.H1.RespFraming → String
+  | .none => "none"
+  | .length n => "len" ++ toString n
+  | .chunked => "chunked"
+  | .untilClose => "close"
+
+def countVals (m : Req.H1.HeaderMap) : Nat := (m.map fun kv => kv.2.length).sum
+
+/-- the outcome CLASS of one response read (what C07 fixes: ok / error, never stuck) -/
+def renderH1 : Req.H1.Outcome → String
+  | .reject => "rej"
+  | .resp m b =>
+    "ok code=" ++ toString m.sl.code ++ " framing=" ++ renderFraming m.framing ++
+    " keys=" ++ toString m.header.length ++ " vals=" ++ toString (countVals m.header) ++
+    " end=" ++ (if b.ok then "eof" else "err") ++ " blen=" ++ toString b.data.length ++
+    " tr=" ++ toString b.trailer.length
+
+/-- `c07h1pos <H|G> <B> <hex stream>` → class of `parseResponse` (one head, then the body) -/
+def laneH1Pos : List String → String
+  | [meth, b, hex] =>
+    match b.toNat?, decodeHex hex with
+    | some B, some s => renderH1 (Req.H1.parseResponse (meth == "H") B s)
+    | _, _ => "bad-op"
+  | _ => "bad-op"
+
+/-- `c07h1final <H|G> <B> <hex stream>` → class of `parseFinal` (interim heads skipped, at most 5) -/
+def laneH1Final : List String → String
+  | [meth, b, hex] =>
+    match b.toNat?, decodeHex hex with
+    | some B, some s => renderH1 (Req.H1.parseFinal (meth == "H") B s)
+    | _, _ => "bad-op"
+  | _ => "bad-op"
+
+def parsePair (t : String) : Option (Nat × Nat) :=
+  match t.splitOn ":" with
+  | [a, b] => match a.toNat?, b.toNat? with
+    | some x, some y => some (x, y)
+    | _, _ => none
+  | _ => none
+
+/-- replay of `pc.Read` calls: results (`X` = exhausted error) -/
+def pcReplay : Nat → List (Nat × Nat) → List String
+  | _, [] => []
+  | limit, (w, a) :: rest =>
+    match Req.C07.H1Budget.pcRead limit w a with
+    | none => "X" :: pcReplay limit rest
+    | some (n, limit') => toString n :: pcReplay limit' rest
+
+/-- `c07pcread <limit> <want:avail,… | ->` → per-call results of `persistConn.Read` -/
+def lanePcRead : List String → String
+  | [l, evs] =>
+    let ps := if evs == "-" then some [] else (evs.splitOn ",").mapM parsePair
+    match l.toNat?, ps with
+    | some L, some l' => let r := pcReplay L l'; if r.isEmpty then "-" else ",".intercalate r
+    | _, _ => "bad-op"
+  | _ => "bad-op"
+
+def parseFieldTok (t : String) : Option Req.H2.Meta.Event :=
+  if t == "!" then some .decodeError else
+  match t.splitOn "=" with
+  | [n, v] => match decodeHex n, decodeHex v with
+    | some a, some b => some (.field a b)
+    | _, _ => none
+  | _ => none
+
+def parseFragTok (t : String) : Option Req.H2.Meta.Frag :=
+  match t.splitOn ":" with
+  | [l, evs] =>
+    let es := if evs == "-" then some [] else (evs.splitOn "+").mapM parseFieldTok
+    match l.toNat?, es with
+    | some n, some e => some ⟨n, e⟩
+    | _, _ => none
+  | _ => none
+
+/-- `c07h2meta <MaxHeaderListSize> <len:name=value+…;len:…>` → class of `readMetaFrame` -/
+def laneH2Meta : List String → String
+  | [m, frs] =>
+    match m.toNat?, (frs.splitOn ";").mapM parseFragTok with
+    | some M, some fs =>
+      match Req.H2.Meta.readMeta M fs false with
+      | .ok fields tr => "ok " ++ toString fields.length ++ (if tr then " truncated" else " complete")
+      | .conn c => "conn " ++ toString c
+      | .stream c => "stream " ++ toString c
+    | _, _ => "bad-op"
+  | _ => "bad-op"
+
+/-- `c07h2accept <MaxHeaderListSize> <frags>` → `response` iff the header list is returned complete
+(a truncated list is refused by `processHeaders`, every error fails the call) -/
+def laneH2Accept : List String → String
+  | [m, frs] =>
+    match m.toNat?, (frs.splitOn ";").mapM parseFragTok with
+    | some M, some fs =>
+      match Req.H2.Meta.readMeta M fs false with
+      | .ok _ false => "response"
+      | _ => "error"
+    | _, _ => "bad-op"
+  | _ => "bad-op"
+
+/-- `c07h3accept <maxHeaderBytes> <hex stream>` → `block` iff the header block is read (what follows
+is QPACK / field validation), else `error` -/
+def laneH3Accept : List String → String
+  | [m, hex] =>
+    match m.toNat?, decodeHex hex with
+    | some M, some s =>
+      match (Req.C07.H3Budget.readHead M s).out with
+      | .block _ _ => "block"
+      | _ => "error"
+    | _, _ => "bad-op"
+  | _ => "bad-op"
+
+/-- `c07h3head <maxHeaderBytes> <hex stream>` → what `ReadResponse` does at the frame level -/
+def laneH3Head : List String → String
+  | [m, hex] =>
+    match m.toNat?, decodeHex hex with
+    | some M, some s => Req.C07.H3Budget.render s (Req.C07.H3Budget.readHead M s)
+    | _, _ => "bad-op"
+  | _ => "bad-op"
+
+def parseH3FieldTok (t : String) : Option Req.H3.Fields.Field :=
+  match t.splitOn "=" with
+  | [n, v] => match decodeHex n, decodeHex v with
+    | some a, some b => some ⟨a, b⟩
+    | _, _ => none
+  | _ => none
+
+/-- `c07h3fields <name=value+…>` → `ok <status>` / `err` of `updateResponseFromHeaders` -/
+def laneH3Fields : List String → String
+  | [fs] =>
+    match (if fs == "-" then some [] else (fs.splitOn "+").mapM parseH3FieldTok) with
+    | some l =>
+      match Req.H3.Fields.updateResponseFromHeaders l with
+      | .error _ => "err"
+      | .ok r => "ok " ++ toString r.statusCode
+    | none => "bad-op"
+  | _ => "bad-op"
+
+/-- `c07digest <hex WWW-Authenticate value>` → `ok <realm> <nonce> <qop> <algorithm>` / `bad` / `charset`
+/ `alg` / `qop` (the repaired RFC 7235 challenge reader, model `Req.DigestAuth` of C20) -/
+def laneDigest : List String → String
+  | [hex] =>
+    match decodeHex hex with
+    | some s =>
+      match Req.DigestAuth.parseChallenge Req.Digest.algOf s with
+      | .ok c => "ok " ++ encodeHex c.realm ++ " " ++ encodeHex c.nonce ++ " " ++ encodeHex c.qop ++ " " ++ encodeHex c.algorithm
+      | .error .badChallenge => "bad"
+      | .error .charset => "charset"
+      | .error .algNotSupported => "alg"
+      | .error .qopNotSupported => "qop"
+      | .error _ => "other-error"
+    | none => "bad-op"
+  | _ => "bad-op"
+
 def lanes : List (String × (List String → String)) := [
+  ("c07digest", laneDigest),
   ("c07altsvc", laneAltSvc),
-  ("c07meta", laneMeta)
+  ("c07meta", laneMeta),
+  ("c07opts", laneOpts),
+  ("c07optuse", laneOptUse),
+  ("c07interim", laneInterim),
+  ("c07token", laneToken),
+  ("c07h1pos", laneH1Pos),
+  ("c07h1final", laneH1Final),
+  ("c07pcread", lanePcRead),
+  ("c07h2meta", laneH2Meta),
+  ("c07h3head", laneH3Head),
+  ("c07h2accept", laneH2Accept),
+  ("c07h3accept", laneH3Accept),
+  ("c07h3fields", laneH3Fields)
 ]
 
 end Req.Driver.L.C07
